@@ -2,6 +2,7 @@ package lib
 
 import (
 	"fmt"
+	"net"
 	"os"
 	"os/exec"
 	"path/filepath"
@@ -125,4 +126,58 @@ func (c *CLI) Kill() {
 func (c *CLI) Output() string {
 	b, _ := os.ReadFile(c.OutPath)
 	return string(b)
+}
+
+// FreeAddr returns a loopback address that was free a moment ago.
+func FreeAddr() string {
+	l, err := net.Listen("tcp", "127.0.0.1:0")
+	if err != nil {
+		panic(err)
+	}
+	defer l.Close()
+	return l.Addr().String()
+}
+
+// StartCLIAt runs `<bin> run <args>` with explicit listener addresses (for log levels that do
+// not print them) and waits until the proxy port accepts connections.
+func StartCLIAt(bin string, args, env []string, outPath, proxyAddr, apiAddr string) (*CLI, error) {
+	f, err := os.Create(outPath)
+	if err != nil {
+		return nil, err
+	}
+	full := append([]string{"run", "--address", proxyAddr, "--api-address", apiAddr}, args...)
+	cmd := exec.Command(bin, full...)
+	cmd.Env = append([]string{"PATH=/usr/bin:/bin", "HOME=/tmp"}, env...)
+	cmd.Stdout, cmd.Stderr = f, f
+	cmd.SysProcAttr = &syscall.SysProcAttr{Pdeathsig: syscall.SIGKILL}
+	if err := cmd.Start(); err != nil {
+		return nil, err
+	}
+	f.Close()
+	c := &CLI{Cmd: cmd, OutPath: outPath, done: make(chan error, 1), ProxyAddr: proxyAddr, APIAddr: apiAddr}
+	go func() { c.done <- cmd.Wait() }()
+	deadline := time.Now().Add(20 * time.Second)
+	for time.Now().Before(deadline) {
+		if conn, err := net.DialTimeout("tcp", proxyAddr, time.Second); err == nil {
+			conn.Close()
+			if apiAddr == "" {
+				return c, nil
+			}
+			if c2, err := net.DialTimeout("tcp", apiAddr, time.Second); err == nil {
+				c2.Close()
+				return c, nil
+			}
+		}
+		select {
+		case err := <-c.done:
+			c.exitErr = err
+			c.done <- err
+			b, _ := os.ReadFile(outPath)
+			return c, fmt.Errorf("forwarder exited early: %v; output: %s", err, Trunc(string(b), 2000))
+		default:
+		}
+		time.Sleep(15 * time.Millisecond)
+	}
+	c.Kill()
+	return c, fmt.Errorf("proxy port %s never opened", proxyAddr)
 }
